@@ -24,7 +24,7 @@ extern "C" int LLVMFuzzerTestOneInput(const uint8_t *data, size_t size) {
     vf::reset_case_state();
     vf::Registry::get().reset();
     vf::Case c; c.prop = g_prop;
-    if (g_prop == "C19") {
+    if (g_prop == "C19" || g_prop == "C18") {
         c.h = {1};
         c.blob.assign(reinterpret_cast<const char *>(data), size);
     } else if (g_prop == "C17") {
